@@ -22,7 +22,7 @@ TAIL_B = bytes(8)
 
 
 def jobs(tier):
-    return [("dynunions", tier), ("unionforms", tier), ("longstrings", tier), ("emptystructs", tier)] + [(tier, c) for c in defs.chunks(defs.space(tier, "medium"), 16)]
+    return [("dynunions", tier), ("unionforms", tier), ("longstrings", tier), ("emptystructs", tier), ("scalarforms", tier)] + [(tier, c) for c in defs.chunks(defs.space(tier, "medium"), 16)]
 
 
 def _streams(buf: bytes, p: int):
@@ -257,6 +257,54 @@ def empty_structs(tier) -> JobResult:
     return res
 
 
+SCALAR_TEXT = ("enum Es8 : int8 { A = 1, B = -2 }; enum Es16 : int16 { C = 1 }; flag Fu8 : uint8 { P = 1, Q = 0x80 }; enum Eu24 : uint24 { D = 1 }; enum Es64 : int64 { E = 1 };"
+               "typedef uint16 pair_t[2]; typedef Es8 epair_t[2];")
+SCALARS_9 = {"Es8": [b"\xff", b"\x80", b"\x01"], "Es16": [b"\xff\xfe", b"\x00\x80"], "Fu8": [b"\x81", b"\xff"], "Eu24": [b"\xff\xfe\xfd"], "Es64": [bytes(range(0xF8, 0x100))],
+             "int24": [b"\xff\xfe\xfd", b"\x01\x02\x83"], "int8": [b"\x80"], "uint16": [b"\xff\x01"], "int64": [bytes(range(0x80, 0x88))], "char": [b"\xe9"], "wchar": [b"\xac\x20"],
+             "float": [b"\x00\x00\xc0\xbf"], "uleb128": [b"\x85\x01"], "ileb128": [b"\x7f"], "pair_t": [b"\xff\x01\x02\x80"], "epair_t": [b"\xff\x80"], "int128": [bytes(range(0xF0, 0x100))]}
+
+
+def scalar_forms(tier) -> JobResult:
+    """Scalar, enum and array types on their own: every input object kind and call form, on an input of exactly the type's size and on a longer
+    one, gives what parsing a stream gives (and leaves a stream behind the value)."""
+    from dissect.cstruct import cstruct
+
+    res = JobResult()
+    for endian in "<>":
+        cs = cstruct(endian=endian)
+        cs.load(SCALAR_TEXT)
+        for tname, datas in SCALARS_9.items():
+            T = cs.resolve(tname)
+            for data in datas:
+                for tail in (b"", b"\x5a\xa5\x00\xff"):
+                    buf = data + tail
+                    try:
+                        s0 = io.BytesIO(buf)
+                        base = (repr(impl.norm(T(s0))), s0.tell())
+                    except Exception as e:  # noqa: BLE001
+                        base = ("exc", type(e).__name__)
+                    forms = [("T(bytes)", lambda: T(buf)), ("T(bytearray)", lambda: T(bytearray(buf))), ("T(memoryview)", lambda: T(memoryview(buf))), ("T(minstream)", lambda: T(MinStream(buf))),
+                             ("T.read(bytes)", lambda: T.read(buf)), ("T.read(stream)", lambda: T.read(io.BytesIO(buf))), ("T.reads(bytes)", lambda: T.reads(buf)),
+                             ("T.reads(bytearray)", lambda: T.reads(bytearray(buf))), ("cs.read(name,bytes)", lambda: cs.read(tname, buf)), ("cs.read(name,stream)", lambda: cs.read(tname, io.BytesIO(buf)))]
+                    for fname, fn in forms:
+                        if tname == "char" and fname == "T(bytes)" and not tail:
+                            continue  # char(b"x") of exactly one byte is the documented constructor form
+                        res.evaluations += 1
+                        res.states += 1
+                        res.transitions += 1
+                        res.nontrivial += 1
+                        try:
+                            got = repr(impl.norm(fn()))
+                        except Exception as e:  # noqa: BLE001
+                            got = "exc:" + type(e).__name__
+                        if got != base[0]:
+                            res.violations.append(Violation("scalarform:differs", f"scalarform:differs|{tname}|{fname}", {"scalarform": tname, "endian": endian, "form": fname, "input": buf.hex()},
+                                f"{tname} {endian}: {fname} on {buf.hex()} gives {got}; parsing a stream over the same bytes: {base[0]}"))
+                            break
+    res.samples.append({"scalar_forms": list(SCALARS_9)})
+    return res
+
+
 LONG_LENGTHS = sorted(set(range(0, 70)) | {126, 127, 128, 129, 254, 255, 256, 257, 258, 300, 511, 512, 513, 1023, 1024, 1025, 4095, 4096, 4097, 8191, 8192, 8193, 65535, 65536, 65537})
 
 
@@ -368,6 +416,25 @@ def check_case(names, endian, align, res: JobResult, tier="quick", only_input=No
                         elif got[1] != p + inp.consumed:
                             viol("offset:position", f"payload={payload.hex()} at offset {p} via {kind}: stream left at {got[1]}, expected {p + inp.consumed}", reader, inp, offset=p, via=kind)
                 res.outcomes.add(len({repr(r[1]) for r in results}))
+            if eof_tail:
+                # shortened inputs (the last bytes - often tail padding of the last element - missing): whatever happens, it happens for every input kind
+                for cutn in (1, 2, 3):
+                    if cutn >= len(payload):
+                        break
+                    short = payload[:-cutn]
+                    outs = []
+                    kinds_ = [("bytes", lambda: T(short)), ("bytearray", lambda: T(bytearray(short))), ("BytesIO", lambda: T(io.BytesIO(short))), ("MinStream", lambda: T(MinStream(short))),
+                              ("BufferedReader", lambda: T(io.BufferedReader(io.BytesIO(short))))]
+                    for kname, fn in kinds_:
+                        res.evaluations += 1
+                        res.transitions += 1
+                        try:
+                            outs.append((kname, ("ok", repr(impl.norm(fn())))))
+                        except Exception:  # noqa: BLE001
+                            outs.append((kname, ("raises",)))
+                    if len({o[1] for o in outs}) > 1:
+                        viol("kind:differs-on-short-input", f"input {short.hex()} ({cutn} bytes short of {payload.hex()}): " + ", ".join(f"{k}: {o[0] if o[0] == 'raises' else o[1][:60]}" for k, o in outs), reader, inp, cut=cutn)
+                        break
             # ---- input object kinds and call forms at offset 0
             buf = payload + (b"" if eof_tail else TAIL_A)
             forms = [
@@ -439,6 +506,8 @@ def run(job) -> JobResult:
         return long_strings(job[1])
     if job[0] == "emptystructs":
         return empty_structs(job[1])
+    if job[0] == "scalarforms":
+        return scalar_forms(job[1])
     res = JobResult()
     tier, chunk = job
     for names in chunk:
@@ -453,6 +522,8 @@ def replay(case):
         return [v for v in dynamic_unions("thorough").violations if v.case == case]
     if "unionform" in case:
         return [v for v in union_forms("thorough").violations if v.case == case]
+    if "scalarform" in case:
+        return [v for v in scalar_forms("thorough").violations if v.case == case]
     if "emptystruct" in case:
         return [v for v in empty_structs("thorough").violations if v.case == case]
     if "longstring" in case:
